@@ -335,27 +335,6 @@ theorem kernel_supports_distinct (k0 : Nat) (ops : List KOp) (st : KState) (h : 
     ∀ key, st.cache = some key → key.2.Nodup :=
   run_distinct ops (by intro key hk; simp [init] at hk) h
 
-open Darsia.Kern in
-/-- **also across failing updates**: `update` restores the object when it raises, so a failing op leaves the
-state as it was (`stepS`); after ANY sequence of ops — failing ones included, no hypothesis — cache and weights
-belong to the current kernel / supports / values and the cached supports are distinct. -/
-theorem kernel_state_consistent_despite_failures (k0 : Nat) (ops : List KOp) :
-    Inv (runS (init k0) ops 0).1 ∧ DistinctOk (runS (init k0) ops 0).1 ∧
-    ∀ st op e, step st op = .error e → (stepS st op).1 = st := by
-  refine ⟨(runS_inv ops _ 0 (inv_init k0) (by intro key hk; simp [init] at hk)).1,
-    (runS_inv ops _ 0 (inv_init k0) (by intro key hk; simp [init] at hk)).2, ?_⟩
-  intro st op e h
-  simp [stepS, h]
-
-/-- a failing `update_model_parameters` (single model or `CombinedModel`, "all" or a dof list) leaves every
-model as it was: the state seen by the next `model(signal)` is the old one (after the `fix:` commits; the tie
-evaluates the models after every failing update) -/
-theorem failed_update_keeps_models (ms : List M) (ps : List Rat) (dofs : List (Nat × DofSpec)) (m : M) (spec : DofSpec) :
-    (∀ e, updateAll ms ps = .error e → (updateAllS ms ps).1 = ms) ∧
-    (∀ e, updateSubset ms dofs ps = .error e → (updateSubsetS ms dofs ps).1 = ms) ∧
-    (∀ e, m.update ps spec = .error e → (m.updateS ps spec).1 = m) := by
-  refine ⟨fun e h => by simp [updateAllS, h], fun e h => by simp [updateSubsetS, h], fun e h => by simp [M.updateS, h]⟩
-
 /-! ### polynomial approximation space -/
 
 /-- `poly_span`: for every degree `d` the exponent list has no repetition, contains exactly the pairs
